@@ -11,7 +11,7 @@ fn u64_to_ne_bytes(x: u64) -> (r: [u8; 8])
 pub uninterp spec fn may_send(fd: int, count: u64) -> bool;
 //@ endregion
 
-//@ item src/sources/ping/eventfd.rs / fn send_ping props=C03 ret=r
+//@ item src/sources/ping/eventfd.rs / fn send_ping props=C03,C04,C10 ret=r
 //@ rw R17 * <<count.to_ne_bytes()>> => <<u64_to_ne_bytes(count)>>
 //@ spec
     requires
@@ -38,7 +38,7 @@ impl FlagOnDrop {
 }
 //@ endregion
 //@ open src/sources/ping/eventfd.rs / impl Ping
-//@ item src/sources/ping/eventfd.rs / impl Ping / fn ping props=C03
+//@ item src/sources/ping/eventfd.rs / impl Ping / fn ping props=C03,C04,C10
 //@ spec
         requires
             // C03 (may-call side): a ping may only ever add INCREMENT_PING (2) to its own eventfd: the close bit (1) is never
@@ -68,7 +68,7 @@ impl FlagOnDrop {
 //@ endslice
 }
 
-//@ item src/sources/ping/eventfd.rs / fn make_ping props=C03,C16 ret=r
+//@ item src/sources/ping/eventfd.rs / fn make_ping props=C03,C16,C04,C10 ret=r
 //@ spec
     ensures
         r matches Ok(ps) ==> {
